@@ -115,6 +115,12 @@ EdgesClash(i, j) ==
 SelfIntersecting == \E i \in 1..NSeg, j \in 1..NSeg : i < j /\ EdgesClash(i, j)
 ClosedSelfIntersecting == closed /\ SelfIntersecting
 Reversal == \E i \in 1..NSeg, j \in 1..NSeg : i < j /\ Adjacent(i, j) /\ EdgesClash(i, j)
+\* two edges are collinear and share more than a point (the path retraces itself)
+EdgesOverlap(i, j) == LET a == SegA(i) b == SegB(i) c == SegA(j) e == SegB(j)
+                          k == IF a[1] # b[1] THEN 1 ELSE 2 IN
+                      /\ Cross(a, b, c) = 0 /\ Cross(a, b, e) = 0
+                      /\ MaxI(MinI(a[k], b[k]), MinI(c[k], e[k])) < MinI(MaxI(a[k], b[k]), MaxI(c[k], e[k]))
+Retrace == \E i \in 1..NSeg, j \in 1..NSeg : i < j /\ EdgesOverlap(i, j)
 ZeroArea == closed /\ Area2(P) = 0
 \* inner bend with a short leg: at interior vertex i the path turns (not straight, not back) and an adjacent edge is
 \* shorter than hw * tan(turn/2) (the two inner offset edges do not intersect) or shorter than hw * sin(turn) (the
@@ -132,7 +138,7 @@ ShortBend(i) == LET a == PrevV(i) v == P[i] b == NextV(i)
                 IN c # 0 /\ ~(LegOK(lu, lv, d, c) /\ LegOK(lv, lu, d, c))
 ShortBends == {i \in Interior : ShortBend(i)}
 Features == [csi |-> ClosedSelfIntersecting, selfint |-> SelfIntersecting, rev |-> Reversal, zeroarea |-> ZeroArea,
-             ccw |-> (closed /\ Area2(P) > 0), shortbend |-> (ShortBends # {})]
+             ccw |-> (closed /\ Area2(P) > 0), shortbend |-> (ShortBends # {}), retrace |-> Retrace]
 
 \* ---- sample grid ---------------------------------------------------------------------------------------------------
 XS == {P[i][1] : i \in 1..NV}
